@@ -131,7 +131,7 @@ def run(ctx):
     # (classification of an operand as state or path formula; operands that look beyond the point where the until is met)
     fam_m = []
     lv = [P, Q, ('not', P), ('not', Q)]
-    for _ in range(3000 if q else 40000):
+    for _ in range(3000 if q else 8000):
         a, b, c = rnd.choice(lv), rnd.choice(lv), rnd.choice(lv)
         t1 = rnd.choice([('G', a), ('F', a), ('X', a), ('U', a, c), ('X', ('X', a)), ('G', ('F', a))])
         st = rnd.choice([b, b, ('E', ('X', b)), ('A', ('F', b)), TR])
@@ -152,11 +152,11 @@ def run(ctx):
     # recurrence / persistence formulas (fairness-like conjunctions of GF, G F over until/release, ...) on structures with
     # several strongly connected components, tails and one-shot states
     fam_r = []
-    for _ in range(700 if q else 12000):
+    for _ in range(700 if q else 5000):
         r = rnd.random()
         K = gen.multi_core_kripke(rnd)[0] if r < 0.35 else gen.core_tail_kripke(rnd)[0] if r < 0.6 else gen.rand_kripke(rnd, rnd.choice([4, 5, 6]), density=rnd.choice([0.2, 0.3]))
         g = gen.recurrence_formulas(rnd)
-        if gen.temporal_count(g) > 4 or len(fam_r) >= (350 if q else 6000):
+        if gen.temporal_count(g) > 4 or len(fam_r) >= (350 if q else 2000):
             continue
         f = (rnd.choice('EEA'), g)
         if rnd.random() < 0.2:
@@ -165,7 +165,7 @@ def run(ctx):
     # generalised fairness under E on sparse structures with 5-7 states (a conjunction of recurrences is satisfiable only on a
     # cycle that meets EVERY conjunct; one-shot states off the cycles must not count)
     lits = [P, Q, ('not', P), ('not', Q)]
-    for _ in range(350 if q else 6000):
+    for _ in range(350 if q else 2000):
         K = gen.rand_kripke(rnd, rnd.choice([5, 6, 7]), density=rnd.choice([0.12, 0.18, 0.25]))
         k = 2
         g = ('and',) + tuple(('G', ('F', rnd.choice(lits))) for _i in range(k))
@@ -199,7 +199,7 @@ def run(ctx):
     shp = gen.shared_polarity_formulas()
     fam_s = [{'K': rnd.choice(scope3), 'f': (rnd.choice('AE'), g)} for g in shp for _ in range(2 if q else 10)]
     fam_e = [dict(c, mode=rnd.choice(['text', 'raw'])) for c in gen.samp(rnd, fam_a + fam_c + fam_n, 1200 if q else 15000)]
-    fam_t = [{'K': rnd.choice(scope3), 'f': (rnd.choice('AE'), gen.tall_path(rnd, rnd.randint(98, 130))), 'late_edge': False} for _ in range(16 if q else 200)]
+    fam_t = [{'K': rnd.choice(scope3), 'f': (rnd.choice('AE'), gen.tall_path(rnd, rnd.randint(98, 130))), 'late_edge': False} for _ in range(16 if q else 60)]
     fams = [('tall', fam_t), ('mixed-operand until', fam_m), ('recurrence', fam_r), ('scope2', fam_a), ('catalogue3', fam_b), ('nested', fam_c), ('nary', fam_n), ('next-negation', fam_x), ('shared-polarity', fam_s), ('long-siblings', fam_long), ('random', fam_d), ('text', fam_e)]
     for _, fam in fams:
         for c in fam:
